@@ -642,6 +642,12 @@ def run(ctx):
     ctx.gen_step("samplehelper", TSH.translate, "C19_helper_gen",
                  "harness/translate_samplehelper.py (ast -> Gallina printer for the helper sample(vari, size) of examples/mirp_random.py: "
                  "if / return / raise, isinstance, np.isscalar, len, ==, and / or / not; combinators in coq/theories/PySampleHelper.v)")
+    import translate_generator as TG
+    ctx.gen_step("generator", TG.translate, "C19_generator_gen",
+                 "harness/translate_generator.py (ast -> Gallina printer for get_generator of examples/mirp_random.py: symbolic execution of "
+                 "`if P is None: P = uniform(..)`, `if isinstance(P, RVT): P = WrapperSampler(P)`, assignments of + - * / expressions over "
+                 "literals and names, uniform(loc, scale), the RandomMIRP(...) dataclass call; vocabulary in coq/theories/PyGenerator.v); "
+                 "that scipy.stats.uniform(loc, scale) draws inside [loc, loc + scale] and that distinct rvs calls are independent draws")
     rng = ctx.rng
     quick = ctx.quick
     world = World()
